@@ -344,7 +344,11 @@ func (c *ChainExec) Exec(op string) string {
 		if err != nil {
 			return "propose=" + ErrClass(err)
 		}
-		return c.finishBlock(b)
+		ans := c.finishBlock(b)
+		if strings.HasPrefix(ans, "h=") {
+			c.recheckPending()
+		}
+		return ans
 	case "block":
 		b, err := c.S.Propose(c.coin, int(argI(toks, "max", 1000)))
 		if err != nil {
@@ -381,6 +385,23 @@ func (c *ChainExec) Exec(op string) string {
 		return fmt.Sprintf("ok h=%d", s.App.Height())
 	}
 	return "bad-op"
+}
+
+// recheckPending does for the stand-in mempool what the real mempool's Update does after a block it did not build
+// (mempool.recheckTxs / recheckUtxoTxs: C15's subject): pending transactions are run through the state check again, in order,
+// against the fresh speculative state, and those a foreign block invalidated (stale nonce, drained balance, spent key image)
+// are dropped.  Without it the next own proposal would contain them and PreRunBlock panics ("should not happen").
+func (c *ChainExec) recheckPending() {
+	if c.S.Simple == nil {
+		return
+	}
+	var keep types.Txs
+	for _, tx := range c.S.Simple.Txs {
+		if err := c.S.App.CheckTx(tx, false); err == nil {
+			keep = append(keep, tx)
+		}
+	}
+	c.S.Simple.Txs = keep
 }
 
 func (c *ChainExec) finishBlock(b *types.Block) string {
